@@ -159,11 +159,11 @@ func (g *GcsEmu) Handler(w http.ResponseWriter, r *http.Request) {
 			// A chunk of a resumable upload; checked first because the object name may itself contain
 			// "/compose" or "/rewriteTo/".
 			g.handleGcsNewObjectResume(ctx, baseUrl, w, r, r.Form.Get("upload_id"))
-		} else if strings.Contains(object, "/compose") {
+		} else if name, verb, b2, f2 := objectVerb(r.URL, object); verb == "compose" {
 			// TODO: enforce other conditions outside of generation
-			g.handleGcsCompose(ctx, baseUrl, w, r, bucket, object, conds)
-		} else if strings.Contains(object, "/rewriteTo/") {
-			g.handleGcsCopy(ctx, baseUrl, w, bucket, object)
+			g.handleGcsCompose(ctx, baseUrl, w, r, bucket, name, conds)
+		} else if verb == "rewriteTo" {
+			g.handleGcsCopy(ctx, baseUrl, w, bucket, name, b2, f2)
 		} else {
 			// unsupported method, or maybe should never happen
 			g.gapiError(w, http.StatusBadRequest, fmt.Sprintf("unsupported POST request: %v\n%s", r.URL, maybeNotImplementedErrorMsg))
@@ -180,7 +180,46 @@ func (g *GcsEmu) Handler(w http.ResponseWriter, r *http.Request) {
 	}
 }
 
-func (g *GcsEmu) handleGcsCompose(ctx context.Context, baseUrl HttpBaseUrl, w http.ResponseWriter, r *http.Request, bucket, object string, conds cloudstorage.Conditions) {
+// objectVerb splits the object part of a POST on an object into the object name and the API verb that follows
+// it: "compose", or "rewriteTo" with its destination bucket and object. Object names may themselves contain
+// "/compose" or "/rewriteTo/" (docker/compose.yaml). A client that percent-encodes the slashes of its object names,
+// as the client libraries do, makes the split unambiguous, so the escaped path decides whenever it has that shape;
+// for names sent with plain slashes the last "/compose" and the first "/rewriteTo/b/" are taken.
+func objectVerb(u *url.URL, object string) (name, verb, dstBucket, dstObject string) {
+	esc := u.EscapedPath()
+	m := gcsObjectPathRegex.FindStringSubmatch(esc)
+	if m == nil {
+		m = gcsObjectPathRegex2.FindStringSubmatch(esc)
+	}
+	if len(m) > 2 {
+		segs := strings.Split(m[2], "/")
+		if len(segs) == 2 && segs[1] == "compose" {
+			if n, err := url.PathUnescape(segs[0]); err == nil {
+				return n, "compose", "", ""
+			}
+		}
+		if len(segs) == 6 && segs[1] == "rewriteTo" && segs[2] == "b" && segs[4] == "o" {
+			n, err1 := url.PathUnescape(segs[0])
+			b, err2 := url.PathUnescape(segs[3])
+			o, err3 := url.PathUnescape(segs[5])
+			if err1 == nil && err2 == nil && err3 == nil {
+				return n, "rewriteTo", b, o
+			}
+		}
+	}
+	if strings.HasSuffix(object, "/compose") {
+		return strings.TrimSuffix(object, "/compose"), "compose", "", ""
+	}
+	if parts := strings.SplitN(object, "/rewriteTo/b/", 2); len(parts) == 2 {
+		// Only the first "/o/" separates bucket and object: the destination object name may itself contain "/o/".
+		if dest := strings.SplitN(parts[1], "/o/", 2); len(dest) == 2 {
+			return parts[0], "rewriteTo", dest[0], dest[1]
+		}
+	}
+	return object, "", "", ""
+}
+
+func (g *GcsEmu) handleGcsCompose(ctx context.Context, baseUrl HttpBaseUrl, w http.ResponseWriter, r *http.Request, bucket, dstName string, conds cloudstorage.Conditions) {
 	var req storage.ComposeRequest
 	if err := json.NewDecoder(r.Body).Decode(&req); err != nil {
 		g.gapiError(w, http.StatusBadRequest, "bad compose request")
@@ -190,14 +229,8 @@ func (g *GcsEmu) handleGcsCompose(ctx context.Context, baseUrl HttpBaseUrl, w ht
 		// no destination metadata given: compose with defaults
 		req.Destination = &storage.Object{}
 	}
-	// Get the composed object name from the path
-	parts := strings.Split(object, "/compose")
-	if len(parts) != 2 {
-		g.gapiError(w, http.StatusBadRequest, "bad compose request")
-		return
-	}
 	dst := composeObj{
-		filename: parts[0],
+		filename: dstName,
 		conds:    conds,
 	}
 
@@ -460,24 +493,10 @@ func restoreOutputOnlyFields(obj *storage.Object, stored *storage.Object) {
 	obj.Updated = stored.Updated
 }
 
-func (g *GcsEmu) handleGcsCopy(ctx context.Context, baseUrl HttpBaseUrl, w http.ResponseWriter, b1 string, objectPaths string) {
+func (g *GcsEmu) handleGcsCopy(ctx context.Context, baseUrl HttpBaseUrl, w http.ResponseWriter, b1, f1, b2, f2 string) {
 	// TODO(dk): this operation supports conditionals and metadata rewriting, but the emulator implementation currently does not.
 	// See https://cloud.google.com/storage/docs/json_api/v1/objects/rewrite
-	parts := strings.Split(objectPaths, "/rewriteTo/b/")
 	// Copy is implemented using the Rewrite API, with object strings of format /o/sourceObject/rewriteTo/b/destinationBucket/o/destinationObject
-	if len(parts) != 2 {
-		g.gapiError(w, http.StatusBadRequest, fmt.Sprintf("Bad rewrite request format: %s", objectPaths))
-		return
-	}
-	f1 := parts[0]
-	// Only the first "/o/" separates bucket and object: the destination object name may itself contain "/o/".
-	destParts := strings.SplitN(parts[1], "/o/", 2)
-	if len(destParts) != 2 {
-		g.gapiError(w, http.StatusBadRequest, fmt.Sprintf("Bad rewrite request, expected object/file split: %s", parts[1]))
-		return
-	}
-	b2 := destParts[0]
-	f2 := destParts[1]
 
 	// Must lock the destination object.
 	var obj *storage.Object
